@@ -29,6 +29,9 @@ from vlib.errors import HarnessError
 
 LEVEL = "model_checking"
 _exe = None
+# sanitizer reports abort(): the driver's SIGABRT handler then names the case it was executing
+_SAN_ENV = {"ASAN_OPTIONS": "detect_leaks=0:abort_on_error=1",
+            "UBSAN_OPTIONS": "print_stacktrace=1:halt_on_error=1:abort_on_error=1"}
 
 D_ALL = "4,5,9,10,127"
 P_ALL = "0,1,2,3,4,5,6,7,8"          # {-, 7E, 7D, 00, 41, 7E7D, 7D5E, 410042, 5E}
@@ -73,7 +76,7 @@ def _san_summary(err):
 def _job(job):
     name, args, tmo = job
     try:
-        rc, out, err = cbuild.run(_exe, args, timeout=tmo)
+        rc, out, err = cbuild.run(_exe, args, timeout=tmo, env=_SAN_ENV)
     except subprocess.TimeoutExpired:
         return {"name": name, "args": args, "rc": None, "js": None, "v": [], "crash": None, "err": "timeout after %ds" % tmo}
     js, v, crash, panic = None, [], None, None
